@@ -29,7 +29,7 @@ pub(crate) struct RegFile {
     pub n_tx: usize,
     pub bad: bool,
 }
-pub(crate) static mut RF: Uq<RegFile> = Uq { magic: 0x6C72_7600_5EF1_1E00, v: RegFile { lo: [0; 64], hi: [0; 64], init_lo: [0; 64], init_hi: [0; 64], fifo_n: 0, fifo_head: [0; FIFO_HEAD], probe: 0, fifo_probe: 0, irq_cleared: 0, n_tx: 0, bad: false } };
+pub(crate) static mut RF: Uq<RegFile> = Uq { magic: 0x6C7276005EF11E00, v: RegFile { lo: [0; 64], hi: [0; 64], init_lo: [0; 64], init_hi: [0; 64], fifo_n: 0, fifo_head: [0; FIFO_HEAD], probe: 0, fifo_probe: 0, irq_cleared: 0, n_tx: 0, bad: false } };
 impl RegFile {
     /// current value of register `a` (1..=127)
     pub(crate) fn get(&self, a: usize) -> u8 {
